@@ -162,6 +162,9 @@ func (s c10Script) name() string {
 	if s.Opts {
 		suffix += "-opts"
 	}
+	if s.ChunkLimit > 0 && s.Shape != "" && s.N > 0 {
+		suffix += fmt.Sprintf("-limit%d", s.ChunkLimit)
+	}
 	return fmt.Sprintf("%s-%s-n%d-%s-%s-k%d%s-%s-md:%s%s", s.Front, s.Shape, s.N, hc, rd, s.K, pp, s.Code, s.MD, suffix)
 }
 
@@ -559,6 +562,9 @@ func c10Scripts(thorough bool) []c10Script {
 		// request messages shows from the third message on)
 		add(c10Script{Shape: "cs", Front: front, N: 4, HalfClose: true, ReadAll: true, K: 1, Code: ok, MD: "none"})
 		add(c10Script{Shape: "bidi", Front: front, N: 4, HalfClose: true, ReadAll: true, K: 1, Code: ok, MD: "none"})
+		// a receive limit that every message respects but the stream as a whole exceeds
+		add(c10Script{Shape: "cs", Front: front, N: 6, HalfClose: true, ReadAll: true, K: 1, Code: ok, MD: "none", ChunkLimit: 52})
+		add(c10Script{Shape: "bidi", Front: front, N: 6, HalfClose: true, ReadAll: true, K: 2, PingPong: true, Code: ok, MD: "none", ChunkLimit: 52})
 		// options and compression on the front must be invisible to the back-end and the client
 		add(c10Script{Shape: "bidi", Front: front, N: 2, HalfClose: true, ReadAll: true, K: 2, PingPong: true, Code: ok, MD: "two", Opts: true})
 		add(c10Script{Shape: "cs", Front: front, N: 2, HalfClose: true, ReadAll: true, K: 1, Code: ok, MD: "bin", Opts: true})
@@ -733,6 +739,9 @@ func c10Scenarios(thorough bool) []*e3Scenario {
 	for _, s := range c10Scripts(thorough) {
 		seen[s.name()] = true
 		sc := c10Scenario(s)
+		if s.ChunkLimit > 0 && !thorough {
+			sc.BoundCap = 1
+		}
 		if (s.Gzip || s.Opts) && !thorough {
 			sc.BoundCap = 2 // compression and stats add many choice points per execution; the quick tier stops these at 2 preemptions
 		}
@@ -756,7 +765,7 @@ func runC10(c *Ctx) {
 	if c.Thorough() {
 		bound, per = 4, 10*time.Minute
 	}
-	r.Rule(fmt.Sprintf("call scripts on the four shapes of a service discovered by reflection from a scripted back-end: front {gRPC, HTTP/JSON} × client {n messages, half-closes or waits for the final status} × back-end {reads r messages or until EOF, sends k replies (batch or ping-pong), finishes with OK / NotFound / Internal+details / PermissionDenied before the first read; plus proxied google.api.HttpBody uploads over HTTP (default and small receive limits so that the body is forwarded in several chunks while replies are relayed); plus a sweep of every final status code 1..17 on every shape, with and without a reply before it (preemption bound 1)} × request metadata {none, one value, two values, -bin} × front options {plain, gzip negotiated on the gRPC front, mux with pass-through interceptors and a stats handler}; threads: front server (ServeHTTP), client, back-end script, larking's pump goroutine; every interleaving with at most %d preemptions (bounds iterated from 0); oracle per schedule: the back-end received exactly what it would receive directly (messages, EOF, metadata), the client received exactly the back-end's replies and final status, no panic, no deadlock (a hang is a deadlock of the controlled threads); distinct = (script, outcome)", bound))
+	r.Rule(fmt.Sprintf("call scripts on the four shapes of a service discovered by reflection from a scripted back-end: front {gRPC, HTTP/JSON} × client {n messages, half-closes or waits for the final status} × back-end {reads r messages or until EOF, sends k replies (batch or ping-pong), finishes with OK / NotFound / Internal+details / PermissionDenied before the first read; plus proxied google.api.HttpBody uploads over HTTP (default and small receive limits so that the body is forwarded in several chunks while replies are relayed); plus a sweep of every final status code 1..17 on every shape, with and without a reply before it (preemption bound 1)} × request metadata {none, one value, two values, -bin} × front options {plain, a receive limit of 52 bytes under 6-message streams (every message within it, the stream beyond it), gzip negotiated on the gRPC front, mux with pass-through interceptors and a stats handler}; threads: front server (ServeHTTP), client, back-end script, larking's pump goroutine; every interleaving with at most %d preemptions (bounds iterated from 0); oracle per schedule: the back-end received exactly what it would receive directly (messages, EOF, metadata), the client received exactly the back-end's replies and final status, no panic, no deadlock (a hang is a deadlock of the controlled threads); distinct = (script, outcome)", bound))
 	r.Assume("the back-end stream follows grpc-go's documented ClientStream contract (SendMsg -> io.EOF once done, RecvMsg -> message / io.EOF / status error); validated against real grpc-go on both sides by the conformance pass", "response header/trailer metadata is not part of the property")
 	runScenarios(c, c10Scenarios(c.Thorough()), bound, per, 0)
 	if c.Shards == 0 {
